@@ -471,6 +471,7 @@ func genNQStatements(g *vlib.G) {
 // ---- nq-canonical-print ----
 
 func genNQCanonical(g *vlib.G) {
+	genNQEscapes(g)
 	type base struct{ terms []string }
 	bases := []base{
 		{[]string{`<a:s>`, `<a:p>`, `<a:o>`}},
@@ -537,6 +538,54 @@ func genNQCanonical(g *vlib.G) {
 					}
 				}
 			}
+		}
+	}
+}
+
+// nqEscapes: every ECHAR and both UCHAR forms of the grammar with the
+// character they denote (https://www.w3.org/TR/n-quads/#grammar-production-ECHAR).
+var nqEscapes = []struct{ esc, want string }{
+	{`\t`, "\t"}, {`\b`, "\b"}, {`\n`, "\n"}, {`\r`, "\r"}, {`\f`, "\f"}, {`\"`, `"`}, {`\'`, "'"}, {`\\`, `\`},
+	{`\u0041`, "A"}, {`\u00e9`, "é"}, {`\u00E9`, "é"}, {`\u0000`, "\x00"}, {`\uFFFD`, "\ufffd"}, {`\u2028`, "\u2028"},
+	{`\U00000041`, "A"}, {`\U0001F600`, "\U0001F600"}, {`\U0010FFFF`, "\U0010FFFF"}, {`\U000E0001`, "\U000E0001"},
+}
+
+// genNQEscapes: the reading direction of every escape, in literals and (UCHAR) in IRIs.
+func genNQEscapes(g *vlib.G) {
+	for _, e := range nqEscapes {
+		for ci, ctx := range [][2]string{{"", ""}, {"a", "b"}, {"\\\\", "\\n"}} {
+			e, ci, ctx := e, ci, ctx
+			g.Case(fmt.Sprintf("escape %s ctx=%d", e.esc, ci), func(t *vlib.T) {
+				r := newRep(t)
+				unctx := func(s string) string { return strings.NewReplacer(`\\`, `\`, `\n`, "\n").Replace(s) }
+				line := `<a:s> <a:p> "` + ctx[0] + e.esc + e.esc + ctx[1] + `"@en .`
+				want := unctx(ctx[0]) + e.want + e.want + unctx(ctx[1])
+				if !refStatementOK(line) {
+					r.Failf("harness: %s is not in the grammar", q(line))
+					return
+				}
+				s, err := rdf.ParseNQuad(line)
+				if err != nil {
+					r.Failf("ParseNQuad(%s): %v", q(line), err)
+					return
+				}
+				checkParts(r, s.Object, want, "@en", rdf.Literal)
+				auditStatement(r, line, s)
+				if strings.HasPrefix(e.esc, `\u`) || strings.HasPrefix(e.esc, `\U`) {
+					if e.want == "\x00" {
+						return // NUL is not an IRI character
+					}
+					line := `<a:s> <a:p/` + e.esc + `> "x"^^<a:t` + e.esc + `> .`
+					s, err := rdf.ParseNQuad(line)
+					if err != nil {
+						t.Count("nq_iri_escape_rejected_by_net_url", 1)
+						return
+					}
+					checkParts(r, s.Predicate, "a:p/"+e.want, "", rdf.IRI)
+					checkParts(r, s.Object, "x", "a:t"+e.want, rdf.Literal)
+				}
+				t.Nontrivial()
+			})
 		}
 	}
 }
